@@ -10,12 +10,15 @@
     * `string_lossless` / `string_fixpoint`: the string part, wherever the literal stands;
     * `sorted_is_permutation / ascending / stable`: the sort_keys build.
   Well-formedness only asks every number literal to be one JSON number before a delimiter
-  (`NumOK`, shown for single digits here; the implementation's number texts are C08's subject).
+  (`NumOK`); `wellformed_literal_is_a_number` shows that of EVERY literal of the RFC 8259 shape
+  `-? (0 | [1-9][0-9]*) (\. [0-9]+)? ([eE] [+-]? [0-9]+)?` (that the implementation's number texts
+  have this shape is C08's subject).
 -/
 import SonicModel.Lemmas.RoundTrip
 import SonicModel.Lemmas.TreeRoundTrip
 import SonicModel.Lemmas.SecondPass
 import SonicModel.Lemmas.SortProof
+import SonicModel.Lemmas.LitProof
 import SonicModel.Thm.C05
 namespace Sonic.Thm.C06
 open Sonic Spec
@@ -59,6 +62,17 @@ theorem render_parses_back_in_context (t : RJ) (h : t.WF) (pre suf : List UInt8)
     simp
   rw [e]; exact hd
 
+/-- **every number literal of the RFC shape is `NumOK`**: sign, integer digits without a leading zero,
+    optional fraction, optional exponent with optional sign — read as one whole number wherever it
+    stands before a delimiter or the end of the text -/
+theorem wellformed_literal_is_a_number (l : Lit) (h : l.WF) : NumOK l.render := lit_numok l h
+
+/-- hence a tree whose only number is any such literal round-trips (used for non-vacuity below;
+    a tree with several numbers is `render_parses_back` with this fact at every number) -/
+theorem number_roundtrip (l : Lit) (h : l.WF) :
+    docTree false (RJ.num l.render).render.toArray = some ((RJ.num l.render).jsonAt 0) :=
+  render_parses_back (.num l.render) (lit_numok l h)
+
 /-- sort_keys: the members of an object are a permutation of the source members … -/
 theorem sorted_is_permutation {α} (ms : List (List UInt8 × α)) : (sortStable ms).Perm ms := sortStable_perm ms
 /-- … in ascending key order … -/
@@ -76,6 +90,14 @@ example : docTree false sample.render.toArray = some (sample.jsonAt 0) := render
 example : stringS false ([91] ++ quoted [97, 34, 10, 1, 0xC3, 0xA9] ++ [93]).toArray 2 =
     some ([97, 34, 10, 1, 0xC3, 0xA9], 1 + (quoted [97, 34, 10, 1, 0xC3, 0xA9]).length) :=
   string_lossless _ [91] [93]
+/-- `-12.50e+07` -/
+def sampleLit : Lit := { neg := true, int := [49, 50], frac := some [53, 48], exp := some (101, some 43, [48, 55]) }
+theorem sampleLit_wf : sampleLit.WF := by
+  refine ⟨by decide, by decide, by decide, ?_, ?_⟩
+  · intro f hf; cases hf; exact ⟨by decide, by decide⟩
+  · intro e s ds h; cases h; exact ⟨by decide, by decide, by decide, by decide⟩
+example : sampleLit.render = [45, 49, 50, 46, 53, 48, 101, 43, 48, 55] := by decide
+example : NumOK sampleLit.render := wellformed_literal_is_a_number _ sampleLit_wf
 example : sortStable [([98], 1), ([97], 2), ([98], 3), ([97], 4)] = [([97], 2), ([97], 4), ([98], 1), ([98], 3)] := by decide
 
 end Sonic.Thm.C06
